@@ -227,6 +227,133 @@ impl SubCheck for SinkSub {
 }
 
 // ---------------------------------------------------------------------------
+// C17, concurrent writers (several models feeding one sink run on different
+// worker threads; here: plain threads on writer clones of one EventBuffer)
+
+#[derive(Clone, Debug, Serialize, Deserialize)]
+pub struct SinkThrCase {
+    pub cap: u8,
+    /// writes per writer thread
+    pub writers: Vec<u16>,
+    /// a reader thread takes events while the writers run
+    pub reader: bool,
+}
+
+pub struct SinkThrSub;
+
+impl SubCheck for SinkThrSub {
+    type Case = SinkThrCase;
+    fn name(&self) -> &'static str {
+        "c17-sink-threads"
+    }
+    fn substrate(&self) -> &'static str {
+        "MT-real-threads"
+    }
+    fn strategy(&self) -> BoxedStrategy<SinkThrCase> {
+        (
+            prop_oneof![3 => 1u8..5, 1 => 5u8..40],
+            proptest::collection::vec(prop_oneof![3 => 1u16..60, 1 => 60u16..1500], 2..4),
+            any::<bool>(),
+        )
+            .prop_map(|(cap, writers, reader)| SinkThrCase { cap, writers, reader })
+            .boxed()
+    }
+    fn eval(&self, c: &SinkThrCase) -> Verdict {
+        use std::sync::atomic::{AtomicBool, AtomicUsize, Ordering};
+        use std::sync::Arc;
+        let cap = c.cap.max(1) as usize;
+        let mut b: EventBuffer<u64> = EventBuffer::with_capacity(cap);
+        let start = Arc::new(AtomicUsize::new(0));
+        let n = c.writers.len();
+        let mut hs = Vec::new();
+        for (wi, k) in c.writers.iter().cloned().enumerate() {
+            let w = b.writer();
+            let start = start.clone();
+            hs.push(std::thread::spawn(move || {
+                // start together
+                start.fetch_add(1, Ordering::SeqCst);
+                while start.load(Ordering::SeqCst) < n {
+                    std::hint::spin_loop();
+                }
+                for j in 1..=k as u64 {
+                    w.write(((wi as u64 + 1) << 32) | j);
+                }
+            }));
+        }
+        let done = Arc::new(AtomicBool::new(false));
+        let mut read: Vec<u64> = Vec::new();
+        if c.reader {
+            // this thread is the reader (the stream is not Send-shared): poll while writers run
+            while hs.iter().any(|h| !h.is_finished()) {
+                if let Some(v) = b.next() {
+                    read.push(v);
+                } else {
+                    std::thread::yield_now();
+                }
+            }
+        }
+        for h in hs {
+            let _ = h.join();
+        }
+        done.store(true, Ordering::SeqCst);
+        // no write is in flight any more
+        let mut rest: Vec<u64> = Vec::new();
+        while let Some(v) = b.next() {
+            rest.push(v);
+            if rest.len() > cap + 100_000 {
+                break;
+            }
+        }
+        let total: usize = c.writers.iter().map(|k| *k as usize).sum();
+        if rest.len() > cap {
+            return sink_fail(
+                "buffer-exceeds-capacity",
+                format!("after {} concurrent writes an EventBuffer of capacity {} held {} events", total, cap, rest.len()),
+            );
+        }
+        if !c.reader && rest.len() != total.min(cap) {
+            return sink_fail(
+                "buffer-retention",
+                format!("after {} writes (no reads) an EventBuffer of capacity {} holds {} events instead of {}", total, cap, rest.len(), total.min(cap)),
+            );
+        }
+        let all: Vec<u64> = read.iter().chain(rest.iter()).cloned().collect();
+        for wi in 0..n {
+            let mine: Vec<u64> = all.iter().cloned().filter(|v| (v >> 32) as usize == wi + 1).map(|v| v & 0xFFFF_FFFF).collect();
+            if mine.windows(2).any(|w| w[0] >= w[1]) {
+                return sink_fail("sink-order", format!("events of writer {} were read out of order or twice: {:?}", wi, &mine[..mine.len().min(20)]));
+            }
+            if mine.iter().any(|j| *j == 0 || *j > c.writers[wi] as u64) {
+                return sink_fail("sink-invented", format!("writer {} never wrote some of {:?}", wi, &mine[..mine.len().min(20)]));
+            }
+            // what is retained at the end is the most recent part of each writer's stream
+            if !c.reader {
+                if let Some(last) = mine.last() {
+                    if *last != c.writers[wi] as u64 && rest.len() == cap && mine.len() > 0 {
+                        // the writer's last event was evicted while older events of it are kept?
+                        let kept_old = mine.iter().any(|j| *j < c.writers[wi] as u64);
+                        if kept_old {
+                            return sink_fail(
+                                "buffer-retention",
+                                format!("writer {}'s last event {} is gone but older events of it {:?} are retained", wi, c.writers[wi], mine),
+                            );
+                        }
+                    }
+                }
+            }
+        }
+        let mut cl = Vec::new();
+        if total > cap {
+            cl.push("overflowed");
+        }
+        if c.reader && !read.is_empty() {
+            cl.push("read-while-writing");
+        }
+        Verdict::pass(total > cap && n >= 2, cl)
+    }
+}
+
+// ---------------------------------------------------------------------------
 // C20
 
 #[derive(Clone, Debug, Serialize, Deserialize)]
